@@ -94,4 +94,11 @@ func (s *Server) updateObject(w http.ResponseWriter, r *http.Request)
   ghost at call[1] readObjectSpec: gSpec := ref(spec)
   ghost at call[1] readObjectSpec: gKind := (spec == nil ? "" : spec.meta.Kind)
   ghost at call[1] Name: gName := n
+func (s *Server) deleteObject(w http.ResponseWriter, r *http.Request)
+  requires s != nil && w != nil && r != nil && !apiLocked
+  modifies objs, objKind, ver, versionHeader, apiLocked, wroteStatus, gName, gSpec, gKind, gReadFailed, allof("map<string,[]string>#dom"), allof("map<string,[]string>#card"), allof("map<string,[]string>#val#arr"), allof("map<string,[]string>#val#len"), allof("map<string,[]string>#val#cap"), allof("elem<string>")
+  ensures mutex-released: !apiLocked
+  ensures missing-name-is-404-and-changes-nothing: let g = gName in (old(objs[g]) == 0 ==> wroteStatus == 404 && objs == old(objs) && ver == old(ver))
+  ensures existing-name-is-removed-with-next-version: let g = gName in (old(objs[g]) != 0 ==> objs == old(store(objs, g, 0)) && ver == old(ver) + 1 && versionHeader == ver)
+  ghost at call[1] _getObject: gName := name
 @*/
